@@ -107,13 +107,18 @@ class UpdateReferences:
             else:
               # a link from an end to the same end: the two forms differ
               # in the overlap only; the overlap the path asks for decides
-              required = oldref.overlap
               if self.record_type == "P":
+                required = None
                 ovs = self.overlaps
                 if len(ovs) > idx and not self._undef_overlaps():
                   required = ovs[idx]
-              if required and newref.overlap and \
-                  required != newref.overlap:
+                if required and newref.overlap and \
+                    required != newref.overlap:
+                  elem.orient = "-"
+                else:
+                  elem.orient = "+"
+              elif oldref.overlap and newref.overlap and \
+                  oldref.overlap != newref.overlap:
                 elem.orient = gfapy.invert(elem.orient)
           elem.line = newref
           found = True
